@@ -98,6 +98,7 @@ open Xmi
 structure MMOK (mm : MMX) : Prop where
   sp : mm.ws ' ' = true
   findSelf : ∀ c, ∀ fi ∈ mm.feats c, mm.find c fi.name = some fi
+  nd : ∀ c, ((mm.feats c).map (·.name)).Nodup
   cid : ∀ c, c < mm.nCls → mm.cidOf (mm.cname c) = some c
 
 /-- an `_isset` entry fits its feature; `tokOK` says what a reference token must be -/
@@ -1170,5 +1171,132 @@ theorem doc_roundtrip (mm : MMX) (o : Opts) (hmm : MMOK mm) (render : Path → S
   have := AllRefs_eff _ mm o true r (hres r hr)
   rw [hE] at this
   exact this
+
+end XDoc
+
+/-! ### navigation in the loaded forest -/
+namespace XDoc
+open Xmi
+
+theorem regroup_filter {ρ : Type} (feats : List FInfo) (hnd : (feats.map (·.name)).Nodup) (L : List (SNode ρ)) (f : Str) :
+    ((feats.filter fun fi => fi.kind = .cont).flatMap fun fi => L.filter fun k => k.via == fi.name).filter (fun k => k.via == f)
+      = if feats.any (fun fi => fi.kind = .cont && fi.name == f) then L.filter (fun k => k.via == f) else [] := by
+  induction feats with
+  | nil => simp
+  | cons g t ih =>
+    simp only [List.map_cons, List.nodup_cons] at hnd
+    have ih' := ih hnd.2
+    simp only [List.filter_cons, List.any_cons]
+    by_cases hc : g.kind = .cont
+    · simp only [hc, decide_true, if_true, List.flatMap_cons, List.filter_append, Bool.true_and, ih']
+      by_cases hn : g.name = f
+      · subst hn
+        have hnone : t.any (fun fi => decide (fi.kind = .cont) && fi.name == g.name) = false := by
+          apply List.any_eq_false.mpr
+          intro fi hfi
+          have : fi.name ≠ g.name := fun he => hnd.1 (List.mem_map.mpr ⟨fi, hfi, he⟩)
+          simp [this]
+        simp only [hnone, Bool.or_false, beq_self_eq_true, if_true, Bool.false_eq_true, if_false, List.append_nil]
+        rw [List.filter_filter]
+        apply List.filter_congr
+        intro k _
+        simp
+      · have hb : (g.name == f) = false := by simpa using hn
+        simp only [hb, Bool.false_or]
+        have : (L.filter fun k => k.via == g.name).filter (fun k => k.via == f) = [] := by
+          apply List.filter_eq_nil_iff.mpr
+          intro k hk hv
+          have h1 : k.via = g.name := by simpa using (List.mem_filter.mp hk).2
+          have h2 : k.via = f := by simpa using hv
+          exact hn (h1 ▸ h2)
+        rw [this, List.nil_append]
+    · have hd : decide (g.kind = .cont) = false := by simpa using hc
+      simp only [hd, Bool.false_eq_true, if_false, Bool.false_and, Bool.false_or, ih']
+
+theorem kidsVia_eff (mm : MMX) (o : Opts) (hmm : MMOK mm) (top : Bool) (n : SNode Str) (h : WFN mm n) (f : Str) :
+    kidsVia (eff mm o top n) f = (kidsVia n f).map (eff mm o false) := by
+  cases h with
+  | mk via cls uuid slots kids hc hnd hs hk hk2 h1 =>
+    unfold kidsVia
+    simp only [eff, SNode.kids, effKids_eq_map]
+    rw [regroup_filter (mm.feats cls) (hmm.nd cls)]
+    split
+    · exact eff_filter_via mm o kids f
+    · rename_i hany
+      have hnone : (kids.filter fun k => k.via == f) = [] := by
+        apply List.filter_eq_nil_iff.mpr
+        intro k hkm hv
+        have hv' : k.via = f := by simpa using hv
+        obtain ⟨fi, hf, hkc, _⟩ := hk2 k hkm
+        obtain ⟨hname, hmem⟩ := find_name mm cls k.via fi hf
+        apply hany
+        apply List.any_eq_true.mpr
+        exact ⟨fi, hmem, by simp [hkc, hname, hv']⟩
+      simp [hnone]
+
+theorem follow_eff (mm : MMX) (o : Opts) (hmm : MMOK mm) (segs : List (Str × Option Nat)) :
+    ∀ (top : Bool) (n : SNode Str), WFN mm n → (follow (eff mm o top n) segs).isSome = (follow n segs).isSome := by
+  induction segs with
+  | nil => intro top n _; rfl
+  | cons s t ih =>
+    intro top n h
+    obtain ⟨f, i⟩ := s
+    simp only [follow, kidsVia_eff mm o hmm top n h f, List.getElem?_map]
+    cases hk : (kidsVia n f)[i.getD 0]? with
+    | none => rfl
+    | some k =>
+      simp only [Option.map_some]
+      have hkm : k ∈ kidsVia n f := List.mem_of_getElem? hk
+      have hkm' : k ∈ n.kids := (List.mem_filter.mp hkm).1
+      have hwf : WFN mm k := by
+        cases h with
+        | mk _ _ _ _ kids _ _ _ hkids _ _ => exact hkids k hkm'
+      exact ih false k hwf
+
+theorem nodeAt_eff (mm : MMX) (o : Opts) (hmm : MMOK mm) (roots : List (SNode Str)) (h : ∀ r ∈ roots, WFN mm r) (p : Path) :
+    (nodeAt (roots.map (eff mm o true)) p).isSome = (nodeAt roots p).isSome := by
+  unfold nodeAt
+  rw [List.getElem?_map]
+  cases hr : roots[p.root]? with
+  | none => rfl
+  | some r =>
+    simp only [Option.map_some]
+    exact follow_eff mm o hmm p.segs true r (h r (List.mem_of_getElem? hr))
+
+end XDoc
+
+namespace XDoc
+open Xmi
+
+theorem kidsVia_mapT {ρ σ : Type} (g : ρ → σ) (n : SNode ρ) (f : Str) :
+    kidsVia (mapT g n) f = (kidsVia n f).map (mapT g) := by
+  cases n with
+  | mk via cls uuid slots kids =>
+    unfold kidsVia
+    simp only [mapT, SNode.kids, mapTL_eq_map, List.filter_map]
+    congr 1
+    apply List.filter_congr
+    intro k _
+    simp
+
+theorem follow_mapT {ρ σ : Type} (g : ρ → σ) (segs : List (Str × Option Nat)) :
+    ∀ (n : SNode ρ), (follow (mapT g n) segs).isSome = (follow n segs).isSome := by
+  induction segs with
+  | nil => intro n; rfl
+  | cons s t ih =>
+    intro n
+    obtain ⟨f, i⟩ := s
+    simp only [follow, kidsVia_mapT, List.getElem?_map]
+    cases (kidsVia n f)[i.getD 0]? with
+    | none => rfl
+    | some k => simp only [Option.map_some]; exact ih k
+
+theorem nodeAt_mapT {ρ σ : Type} (g : ρ → σ) (roots : List (SNode ρ)) (p : Path) :
+    (nodeAt (roots.map (mapT g)) p).isSome = (nodeAt roots p).isSome := by
+  unfold nodeAt
+  rw [List.getElem?_map]
+  cases roots[p.root]? with
+  | none => rfl
+  | some r => simp only [Option.map_some]; exact follow_mapT g p.segs r
 
 end XDoc
